@@ -302,7 +302,8 @@ Proof.
   - (* OWrite *) unfold op_write_page in H. destruct (writeable s); cbn [negb] in H; [|discriminate].
     inversion H; subst s'. destruct HC as [A Bq]. split; destruct (wal_mode s); assumption.
   - (* OTruncate *) destruct (truncate_spec s n s' Done H) as [_ [_ [A [Bq C]]]]. destruct HC as [D E]. unfold Chain. rewrite A, Bq, C. auto.
-  - eapply chain_commit_journal; eassumption.
+  - destruct (writeable s && (pageN s =? 0) && match dbfile s with [] => true | _ => false end);
+      [inversion H; subst; exact HC|eapply chain_commit_journal; eassumption].
   - inversion H; subst. exact HC.
   - inversion H; subst. exact HC.
   - inversion H; subst. exact HC.
